@@ -28,7 +28,8 @@ package ext
 // Used at call sites only (not yet verified against its body): reading the trailer section touches the
 // reader and the trailer object.
 //@ func ReadTrailer(t, r) err
-//@   modifies *, r.pos, r.avail, r.failed
+//@   modifies t._all, alltype(protocol.argsKV), r.pos, r.avail, r.failed, mem
+//@   allocates
 
 //@ func SkipTrailer(r) err
 //@   modifies r.pos, r.avail, r.failed, mem
@@ -48,6 +49,8 @@ package ext
 //@   requires rs.reader != nil
 //@   requires rs.reader.avail >= 0
 //@   requires rs.chunkLeft >= 0
+//@   unreachable-return 9 :: Skip(2) cannot fail right after a successful Peek(2) under the reader contract
+//@   unreachable-return 13 :: Skip(skip) cannot fail with skip <= Len() under the reader contract
 //@   modifies *, rs.reader.pos, rs.reader.avail, rs.reader.failed
 //@   top-ensures old(rs.contentLength) >= 0 && old(rs.prefetchedBytes) != nil && err == nil ==> rs.reader.pos == old(rs.reader.pos) + old(rs.contentLength - ite(rs.offset > len(rs.prefetchedBytes.s), rs.offset, len(rs.prefetchedBytes.s)))
 //@   assert @C14 before ParseChunkSize: rs.chunkLeft == 0
